@@ -177,7 +177,7 @@ def step (c : CS) (l : Line) : CS :=
       let h := l.nat "handle"
       let nvk : Bool := l.str "kind" == "nv"
       let e : Entity := { handle := h, name := l.bytes "name", auth := stripZeros (l.bytes "auth"), policy := l.bytes "policy",
-                          isNv := nvk || (h / 16777216 == 1), isObject := h / 16777216 == 0x80,
+                          isNv := nvk || (h / 16777216 == 1), isObject := h / 16777216 == 0x80 || h / 16777216 == 0x81,
                           authRead := (l.nat? "authread").getD 1 == 1, authWrite := (l.nat? "authwrite").getD 1 == 1,
                           polRead := (l.nat? "polread").getD 0 == 1, polWrite := (l.nat? "polwrite").getD 0 == 1 }
       let c := { c with st := { c.st with ents := e :: c.st.ents.filter (·.handle ≠ h) } }
